@@ -6,7 +6,8 @@ from .common import Violation, TieBroken
 R = str(common.BN254)
 THEOREMS = ['Smtb.Properties.C12.insertion_one_public', 'Smtb.Properties.C12.deletion_one_public',
             'Smtb.Properties.C12.insertion_secrets', 'Smtb.Properties.C12.deletion_secrets',
-            'Smtb.Properties.C12.field_order', 'Smtb.Properties.C12.deletion_depth_guard', 'Smtb.Properties.C12.modes']
+            'Smtb.Properties.C12.field_order', 'Smtb.Properties.C12.deletion_depth_guard', 'Smtb.Properties.C12.modes',
+            'Smtb.Properties.C12.compile_calls_uniform']
 
 
 def xhash(mode, d, b, path, procs=None):
@@ -52,8 +53,12 @@ def run(ctx):
         ctx.oblige('T-facts: struct tags of both circuits (regenerated) satisfy the decide-checked expectations', False, t.detail[:300])
     # multi-block hash inputs matter: insertion batch >= 3 and deletion batch >= 21 put input lanes
     # into the second Keccak block
-    dims = ctx.pick([('insertion', 2, 3), ('deletion', 2, 21)],
-                    [(m, d, b) for m in ('insertion', 'deletion') for d, b in ((1, 1), (2, 2), (3, 2), (4, 1), (8, 3), (20, 2), (2, 21), (3, 7))])
+    # ... and one large circuit per run (300k constraints, 4 s per compilation): size-dependent
+    # behaviour of the compiler or of options passed to it shows only there
+    dims = ctx.pick([('insertion', 2, 3), ('deletion', 2, 21), ('deletion', 16, 16)],
+                    [(m, d, b) for m in ('insertion', 'deletion') for d, b in ((1, 1), (2, 2), (3, 2), (4, 1), (8, 3), (20, 2), (2, 21), (3, 7), (16, 16), (30, 4))])
+    if facts_err:
+        dims = dims + [d for d in [('insertion', 16, 16), ('insertion', 30, 10), ('deletion', 30, 10)] if d not in dims]
     obs = observations(ctx, dims)
     bad = None
     n = 0
